@@ -41,6 +41,33 @@ int main(int argc, char** argv) {
   // HSV -> RGB: the sector switch `switch(int(floor(h/60)))` is traced through SymR's comparison-decided `operator int`
   add_unit("rgbColor", 3, 3, [](auto const* x, auto* o) { using T = TY(o); stv(o, glm::rgbColor(ldv<3, T>(x))); });
   // numeric exploration: rgbColor and hsvColor invert each other on the RGB cube (raw numbers in [-2,2] are folded into [0,1])
+  // lowp float vec3 convertLinearToSRGB is an explicit specialisation (a fast approximation by three square roots), invisible to the tracer.
+  // Dense sweeps on the real code (exploration).  u[0] picks the window; every call sweeps 4096 consecutive grid points.
+  //   p_srgb_lowp_curve    : on [1/255, 1] it follows the exact curve within 2e-3, increases along a 1/65536 grid, stays in [0,1]; 0 -> 0, 1 -> 1
+  //   p_srgb_lowp_envelope : everywhere >= -0.037 and <= 1; >= 0 from 7.7e-4 on             (what the pinned tree does satisfy)
+  //   p_srgb_lowp_range    : >= 0 on (0, 7.7e-4)                                              (KNOWN FINDING: it dips to -0.0365)
+  //   p_srgb_lowp_monotone : no decrease between adjacent floats                              (KNOWN FINDING: 1-2 ulp wiggles of the 4-term sum)
+#define LOWP_SRGB(c) ((double)glm::convertLinearToSRGB(glm::vec<3, float, glm::lowp>((float)(c))).y)
+  add_prop("p_srgb_lowp_curve", 1, 2e-3, 2e-3, [](auto const* u) { using T = TY(u); double worst = 0;
+    if (LOWP_SRGB(0.0) != 0.0 || std::fabs(LOWP_SRGB(1.0) - 1.0) > 1e-6) return (T)1;
+    int w = std::min(15, std::max(0, (int)(((double)u[0] + 2.0) * 3.99))); double prev = -1;                                    // 16 windows of 4096 points
+    for (int i = 0; i < 4096; ++i) { double c = (w * 4096 + i) / 65536.0; if (c < 1.0 / 255) continue;
+      double r = LOWP_SRGB(c), h = (double)glm::convertLinearToSRGB(glm::vec3((float)c)).y;
+      worst = std::max(worst, std::fabs(r - h)); if (r < 0 || r > 1) worst = 1; if (r <= prev) worst = 1; prev = r; }
+    return (T)worst; });
+  add_prop("p_srgb_lowp_envelope", 1, 0.0, 0.0, [](auto const* u) { using T = TY(u); double bad = 0;
+    double lo = std::ldexp(1.0, -std::min(24, std::max(0, (int)(((double)u[0] + 2.0) * 6.0))));                                  // windows [2^-k, 2^-k+1), k = 0..24
+    for (int i = 0; i < 4096; ++i) { double c = lo * (1.0 + i / 4096.0); if (c > 1) break; double r = LOWP_SRGB(c);
+      if (r < -0.037 || r > 1.0 || (c >= 7.7e-4 && r < 0)) bad = 1; }
+    return (T)bad; });
+  add_prop("p_srgb_lowp_range", 1, 0.0, 0.0, [](auto const* u) { using T = TY(u); double bad = 0;
+    double lo = std::ldexp(1.0, -11 - std::min(12, std::max(0, (int)(((double)u[0] + 2.0) * 3.0))));
+    for (int i = 0; i < 4096; ++i) { double c = lo * (1.0 + i / 4096.0); if (c >= 7.7e-4) continue; if (LOWP_SRGB(c) < 0) bad = 1; }
+    return (T)bad; });
+  add_prop("p_srgb_lowp_monotone", 1, 0.0, 0.0, [](auto const* u) { using T = TY(u); double bad = 0;
+    float c = (float)(0.01 + std::min(4.0, std::max(0.0, (double)u[0] + 2.0)) * 0.24); double prev = LOWP_SRGB(c);
+    for (int i = 0; i < 4096; ++i) { c = std::nextafter(c, 2.0f); double r = LOWP_SRGB(c); if (r < prev) bad = 1; prev = r; }
+    return (T)bad; });
   add_prop("p_hsv_roundtrip", 3, 2e-5, 1e-12, [](auto const* x) { using T = TY(x);
     glm::vec<3, T, glm::defaultp> c(std::abs(x[0]) * T(0.5), std::abs(x[1]) * T(0.5), std::abs(x[2]) * T(0.5));
     auto d = glm::rgbColor(glm::hsvColor(c)) - c;
